@@ -69,7 +69,7 @@ class C11(Check):
                    'overlong-wait bound: 10 s reply time-out + 3 s queue time-out + 2 s; in runs with connection '
                    'faults additionally 31 s for a reconnect holding the client lock',
                    'not-released bound: loss visible at the client socket + 1 s receive time-out + 2 s']
-    PROBES = ('c11.same-key-concurrent', 'c11.small-peer-buffer', 'peer.streamed-update', 'c11.timeout', 'c11.late-reply', 'fault.peer-close', 'fault.peer-reset',
+    PROBES = ('c11.same-key-concurrent', 'peer.error-update', 'c11.small-peer-buffer', 'peer.streamed-update', 'c11.timeout', 'c11.late-reply', 'fault.peer-close', 'fault.peer-reset',
               'fault.peer-blackhole', 'c11.user-disconnect', 'c11.disconnect-during-loss', 'c11.reconnect',
               'c11.request-parked')
 
@@ -99,9 +99,9 @@ class C11(Check):
                 step['gap'] = rng.choice([0.2, 0.9, 1.05, 1.5, 2.5])
                 step['frac'] = rng.choice([0.1, 0.5, 0.9])
             if rng.random() < 0.3:
-                step['updates_before'] = [rng.randrange(100)]
+                step['updates_before'] = [rng.choice([rng.randrange(100), 'err'])]
             if rng.random() < 0.3:
-                step['updates_after'] = [rng.randrange(100)]
+                step['updates_after'] = [rng.choice([rng.randrange(100), 'err'])]
             if faulty and rng.random() < 0.15:
                 step['faults'] = [{'delay': rng.choice([0, 0, 0.01, 0.5]),
                                    'fault': rng.choice([['close'], ['reset'], ['blackhole'], ['refuse', rng.randrange(1, 4)]])}]
